@@ -1,1 +1,3 @@
+import RaftModel.Basic
 import RaftModel.Inflights
+import RaftModel.Storage
